@@ -34,7 +34,8 @@ def srcTake : TakeFacts :=
 def srcValidate : ValidateFacts :=
   { rejectsTrailingSegment := FactsC15.validateRejectsTrailingSegment
     checkerPerMapping := FactsC15.checkerPerMapping
-    streamCheckerKeepsChunkType := FactsC15.streamCheckerKeepsChunkType }
+    streamCheckerKeepsChunkType := FactsC15.streamCheckerKeepsChunkType
+    ifaceCheckerGuardsNil := FactsC15.ifaceCheckerGuardsNil }
 
 /-! ## property theorems (instantiated with the facts regenerated from /repo) -/
 
@@ -530,6 +531,130 @@ theorem checker_uses_last_mapping_as_found :
     let ms : List Mapping := [⟨["A"], ["S"]⟩, ⟨["A"], ["A"]⟩]
     checkE Expected.C15.validateAsFound exTop exTop ms [(⟨["A"], ["S"]⟩, some (.int, .int 3))] = true ∧
     checkE Expected.C15.validate exTop exTop ms [(⟨["A"], ["S"]⟩, some (.int, .int 3))] = false := by decide
+
+/-! ## an untyped nil found at the end of a source path that crosses an interface
+
+  `a.b.c` out of `map[string]any`, `A.k.S` out of a struct with an `any` field: the static check
+  cannot know the type of the value found (`predecessorIntermediateInterface`), a run-time checker
+  is installed.  What the property demands of it: a typed value is assignable or an error; an
+  untyped nil is a value where nil is a value (pointer, map, slice, interface targets: the successor
+  sees nil there) and an error elsewhere (string, int, struct, … and func / chan, which the
+  converter does not take either) — what the sibling checker for `assignableTypeMay` does. -/
+
+/-- Source fact tie: the three (four) lists of kinds for which the code accepts an untyped nil —
+    run-time checkers, `checkAndExtractToField`, `checkAndExtractToMapKey` — are all
+    `{Map, Slice, Ptr, Interface}`, the model's `nilable`: what a checker admits the converter can
+    assign. -/
+theorem nil_kinds_match : FactsC15.nilKindsAreMapSlicePtrInterface = true := by decide
+
+/-- the model's `nilable` is that list -/
+theorem nilable_iff (t : FTy) :
+    nilable t = true ↔ t = .any ∨ (∃ e, t = .ptr e) ∨ (∃ e, t = .map e) ∨ (∃ n, t = .opq .slice n) := by
+  cases t with
+  | opq k n => cases k <;> simp [nilable]
+  | _ => simp [nilable]
+
+/-- **nil_behind_interface.** One mapping whose source path crosses an interface before its last
+    segment (`validateOne` installs the interface-path checker against the successor field type
+    `sf`), a predecessor output on which the path ends at an untyped nil: if `sf` has no nil the
+    run is an ordinary error; if it has, the run succeeds and the successor reads nil at the
+    target path — in non-streaming and streaming form.  Never a panic. -/
+theorem nil_behind_interface (allowMissing : Bool) (st pt : FTy) (v : FVal) (m : Mapping) (sf : FTy)
+    (hv : validateOne srcValidate pt st m = some (some (sf, true)))
+    (ht : take srcTake pt v m.src = .ok none) :
+    (nilable sf = false →
+      runNode srcTake srcValidate allowMissing st [{ pt := pt, v := v, ms := [m] }] = .error .request) ∧
+    (nilable sf = true → ∃ w,
+      runNode srcTake srcValidate allowMissing st [{ pt := pt, v := v, ms := [m] }] = .ok w ∧
+      getT st w m.dst = some (sf, .nil)) := by
+  rw [facts_match.2.1] at ht ⊢
+  rw [facts_match.2.2] at hv ⊢
+  have hck : checkerOf Expected.C15.validate pt st [m] m = some (sf, true) := by
+    simp only [checkerOf, hv, Option.getD_some]
+    simp [Expected.C15.validate]
+  have hfm : fieldMapE Expected.C15.take allowMissing pt v [m] = .ok [(m, none)] := by
+    simp [fieldMapE, ht]
+  have hpan := checkPanicE_expected pt st [m] [(m, none)]
+  constructor
+  · intro hn
+    simp [runNode, edgesMap, hfm, hpan, checkE, hck, runtimeCheck, hn]
+  · intro hn
+    have hsome := assign_of_validated Expected.C15.take pt st v m (some (sf, true)) none hv ht
+      (by simp [runtimeCheck, hn]) (newInstance st)
+    cases ha : assign st (newInstance st) m.dst none with
+    | none => simp [ha] at hsome
+    | some w =>
+      refine ⟨w, ?_, ?_⟩
+      · simp [runNode, edgesMap, hfm, hpan, checkE, hck, runtimeCheck, hn, convertTo, convertFrom, ha]
+      · obtain ⟨st', w', h1, h2, h3⟩ := assign_getT_same m.dst st (newInstance st) w none ha
+        have hslot : slotTy st m.dst = some sf := by
+          simp only [validateOne, Expected.C15.validate] at hv
+          cases hp : extractTy true pt m.src with
+          | none => simp [hp] at hv
+          | some pfi =>
+            cases hs : extractTy true st m.dst with
+            | none => simp [hp, hs] at hv
+            | some sfi =>
+              obtain ⟨sf', sI⟩ := sfi
+              obtain ⟨pf, pI⟩ := pfi
+              simp only [hp, hs] at hv
+              have := extractTy_slotTy _ _ _ _ hs
+              by_cases hsI : sI = true
+              · simp only [hsI, if_true] at hv
+                by_cases hsf : sf' = .any <;> simp [hsf] at hv
+              · simp only [hsI, if_false, Bool.false_eq_true] at hv
+                by_cases hpI : pI = true
+                · simp only [hpI, if_true, Option.some.injEq, Prod.mk.injEq, and_true] at hv
+                  rw [← hv]; exact this
+                · simp only [hpI, if_false, Bool.false_eq_true] at hv
+                  split at hv <;> simp at hv
+        rw [hslot] at h1
+        cases h1
+        simp only [store, hn, if_true, Option.some.injEq] at h2
+        subst h2
+        exact h3
+
+/-- `map[string]any`, three levels, an untyped nil at `a.b.c` -/
+def exTree (leaf : FVal) : FVal :=
+  .map (.cons "a" (.box (.map .any) (.map (.cons "b" (.box (.map .any) (.map (.cons "c" leaf .nil))) .nil))) .nil)
+
+/-- the hypotheses of `nil_behind_interface` are satisfiable (target `Top.S`, a string, and
+    `Top.PL`, a pointer), and these are the two outcomes; a typed value arrives, an ill-typed one,
+    a missing key, a nil or a non-container on the way are errors -/
+example :
+    validateOne Expected.C15.validate (.map .any) exTop ⟨["a", "b", "c"], ["S"]⟩ = some (some (.str, true)) ∧
+    take Expected.C15.take (.map .any) (exTree .nil) ["a", "b", "c"] = .ok none ∧
+    runNode Expected.C15.take Expected.C15.validate false exTop
+      [{ pt := .map .any, v := exTree .nil, ms := [⟨["a", "b", "c"], ["S"]⟩] }] = .error .request ∧
+    runNode Expected.C15.take Expected.C15.validate false exTop
+      [{ pt := .map .any, v := exTree .nil, ms := [⟨["a", "b", "c"], ["PL"]⟩] }] = .ok (newInstance exTop) ∧
+    runNode Expected.C15.take Expected.C15.validate false exTop
+      [{ pt := .map .any, v := exTree (.box .str (.str "x")), ms := [⟨["a", "b", "c"], ["S"]⟩] }] =
+      .ok (.obj (.cons "S" (.str "x") (.cons "L" (exLeafV "" 0) (.cons "PL" .nil (.cons "MPL" .nil (.cons "A" .nil .nil)))))) ∧
+    runNode Expected.C15.take Expected.C15.validate false exTop
+      [{ pt := .map .any, v := exTree (.box .int (.int 7)), ms := [⟨["a", "b", "c"], ["S"]⟩] }] = .error .request ∧
+    runNode Expected.C15.take Expected.C15.validate false exTop
+      [{ pt := .map .any, v := exTree .nil, ms := [⟨["a", "b", "zz"], ["S"]⟩] }] = .error .request ∧
+    runNode Expected.C15.take Expected.C15.validate false exTop
+      [{ pt := .map .any, v := exTree .nil, ms := [⟨["a", "b", "c", "d"], ["S"]⟩] }] = .error .request ∧
+    runNode Expected.C15.take Expected.C15.validate false exTop
+      [{ pt := .map .any, v := exTree (.box .str (.str "x")), ms := [⟨["a", "b", "c", "d"], ["S"]⟩] }] = .error .request := by
+  decide
+
+/-- The interface-path checker as found (no nil guard: `reflect.TypeOf(a).AssignableTo(…)` on the
+    nil `reflect.Type`) panics out of the run on that value, for a target without a nil and for one
+    with a nil alike; with the guard the first is an error and the second succeeds (replayed on the
+    real code by the harness' fixed cases). -/
+theorem iface_checker_panics_on_nil_as_found :
+    runNode Expected.C15.take Expected.C15.validateNoNilGuard false exTop
+      [{ pt := .map .any, v := exTree .nil, ms := [⟨["a", "b", "c"], ["S"]⟩] }] = .error .panic ∧
+    runNode Expected.C15.take Expected.C15.validateNoNilGuard true exTop
+      [{ pt := .map .any, v := exTree .nil, ms := [⟨["a", "b", "c"], ["PL"]⟩] }] = .error .panic ∧
+    runNode Expected.C15.take Expected.C15.validate false exTop
+      [{ pt := .map .any, v := exTree .nil, ms := [⟨["a", "b", "c"], ["S"]⟩] }] = .error .request ∧
+    runNode Expected.C15.take Expected.C15.validate true exTop
+      [{ pt := .map .any, v := exTree .nil, ms := [⟨["a", "b", "c"], ["PL"]⟩] }] = .ok (newInstance exTop) := by
+  decide
 
 /-! ## static values: non-vacuity and the negation for a stream twin that returns early -/
 
